@@ -153,7 +153,7 @@ def loops_around(fn: ast.AST, node: ast.AST) -> List[ast.AST]:
 
 
 def _assigned_names(target: ast.AST) -> List[str]:
-    return [n.id for n in ast.walk(target) if isinstance(n, ast.Name)]
+    return [n.id for n in ast.walk(target) if isinstance(n, ast.Name) and not isinstance(n.ctx, ast.Load)]
 
 
 def _binds(stmt: ast.stmt, name: str) -> bool:
